@@ -1623,3 +1623,70 @@ func ruleAllocFromFileInt(c *eng.Ctx) {
 		})
 	}
 }
+
+// R2.13 [C02]
+func ruleSliceBoundOwnLength(c *eng.Ctx) {
+	const R = "R2.13-SLICE-BOUND-OWN-LENGTH"
+	c.Rule(R, "when the upper bound of a slice expression on a string or byte slice is clamped with a length (min(k, len(y)), or the written-out clamp), the length is that of the value being sliced: the length of a different value (the bytes before upper-casing, another buffer) does not bound it and the expression panics on input where the two differ", 2, 1)
+	n := 0
+	for _, fn := range c.P.ModuleFuncs() {
+		if fn.Blocks == nil {
+			continue
+		}
+		k := 0
+		eng.Instrs(fn, false, func(in ssa.Instruction) {
+			sl, ok := in.(*ssa.Slice)
+			if !ok || sl.High == nil {
+				return
+			}
+			switch t := sl.X.Type().Underlying().(type) {
+			case *types.Basic:
+				if t.Kind() != types.String {
+					return
+				}
+			case *types.Slice:
+				if b, ok := t.Elem().Underlying().(*types.Basic); !ok || b.Kind() != types.Uint8 {
+					return
+				}
+			default:
+				return
+			}
+			// the bound is a clamp: min(..) call, or a phi one of whose inputs is a len()
+			var lens []ssa.Value
+			clamp := false
+			switch h := sl.High.(type) {
+			case *ssa.Call:
+				if kind, args, ok := minMaxCall(h); ok && kind < 0 {
+					clamp = true
+					for _, a := range args {
+						if call, ok := a.(*ssa.Call); ok && eng.CalleeName(call) == "builtin:len" {
+							lens = append(lens, call.Call.Args[0])
+						}
+					}
+				}
+			case *ssa.Phi:
+				if !isLoopCarried(h) {
+					for _, e := range h.Edges {
+						if call, ok := e.(*ssa.Call); ok && eng.CalleeName(call) == "builtin:len" {
+							clamp = true
+							lens = append(lens, call.Call.Args[0])
+						}
+					}
+				}
+			}
+			if !clamp || len(lens) == 0 {
+				return
+			}
+			n++
+			k++
+			own := false
+			for _, l := range lens {
+				if eng.SameValue(l, sl.X) {
+					own = true
+				}
+			}
+			c.Check(own, R, fmt.Sprintf("%s#slice%d", eng.FuncName(fn), k), sl.Pos(), "clamped by the sliced value's own length",
+				"the upper bound is clamped by the length of a different value than the one being sliced: where the two lengths differ the expression panics with slice bounds out of range")
+		})
+	}
+}
